@@ -8,6 +8,7 @@ def check(run):
         run.rule(r, T.RULES[r])
     for cfg in configs(run):
         F = run.facts(cfg)
+        if cfg == 'base': __import__('common').pins(run, F, 'time_prims', 'timelike')
         T.check_mirrors(run, F)
         T.check_months(run, F)
         T.check_time_ctors(run, F)
